@@ -340,6 +340,13 @@ func runCase(c *Case, d *driver, opts runOpts) (res caseResult) {
 			}
 			if mo.X != "" {
 				addF(finding{Step: step, Kind: "framing", Clause: "G", Tags: *tags, Detail: mo.X + " " + io.G})
+				// the two sides no longer agree on where the sequences end, so the steps that follow
+				// cannot be compared one by one; what the application receives can: the whole case
+				// once more on both sides, each on its own, and the replies written compared
+				if iw, mw, ok := endToEndReplies(c, d); ok && iw != mw {
+					addF(finding{Step: step, Kind: "diverge", Clause: "W", Tags: *tags + ",end-to-end",
+						Detail: fmt.Sprintf("after the framing divergence the whole case was run on both sides independently: replies written impl[W %s] model[W %s]", iw, mw)})
+				}
 				useModel = false
 				res.Cut = !opts.keepGoing
 				res.Diverged = true
@@ -810,4 +817,62 @@ func stepIncompleteTail(data []byte) bool {
 // peekTags gives a rough label for the bytes being processed when a step panicked.
 func peekTags(data []byte, im *impl) string {
 	return "panic-step"
+}
+
+
+// endToEndReplies runs the whole case (rune mode) on a fresh implementation and on a fresh model,
+// each consuming the input on its own, and returns the bytes each wrote to the application.
+func endToEndReplies(c *Case, d *driver) (implW, modelW string, ok bool) {
+	if c.Mode != 0 || d == nil {
+		return "", "", false
+	}
+	im, pan := newImpl(c.Mode, c.Grid, c.W, c.H)
+	if pan != "" || im == nil {
+		return "", "", false
+	}
+	pol := "keep"
+	if c.Grid {
+		pol = "blank"
+	}
+	if _, err := d.cmdBlock(fmt.Sprintf("case %s %d %d", pol, c.W, c.H)); err != nil {
+		return "", "", false
+	}
+	var mw strings.Builder
+	total := 0
+	for _, it := range c.Items {
+		switch it.Kind {
+		case "resize":
+			if it.Fail {
+				continue
+			}
+			if p := im.resize(it.W, it.H); p != "" {
+				return "", "", false
+			}
+			mo, err := d.cmdBlock(fmt.Sprintf("resize %d %d", it.W, it.H))
+			if err != nil {
+				return "", "", false
+			}
+			_ = mo
+		case "in":
+			b := it.bytes()
+			if len(b) == 0 {
+				continue
+			}
+			if p := feedAll(im, b); p != "" {
+				return "", "", false
+			}
+			total += len(b)
+			if err := d.send("feed " + hex.EncodeToString(b)); err != nil {
+				return "", "", false
+			}
+			mo, err := d.cmdBlock(fmt.Sprintf("adv %d", total))
+			if err != nil {
+				return "", "", false
+			}
+			if w := strings.TrimPrefix(mo.lines["W"], "W "); w != "-" && w != "" {
+				mw.WriteString(w)
+			}
+		}
+	}
+	return hex.EncodeToString(im.be.written), mw.String(), true
 }
